@@ -2,7 +2,7 @@
 # usage: tools_validate_seed.sh <Cxx> <mN>   -- confirm a seeded change in its scratch worktree:
 #  suite passes with the change; demo fails with it and passes without it. Then store under /verif/seeded/<id>-<mN>/.
 pid=$1; m=$2
-WT=/tmp/mut/$pid; OUT=/tmp/mut/out/$pid
+WT=${MUTBASE:-/tmp/mut}/$pid; OUT=${MUTBASE:-/tmp/mut}/out/$pid
 export GOFLAGS=-mod=mod GOPROXY=off GOSUMDB=off GOTOOLCHAIN=local
 cd $WT && git checkout -q -- . && git apply --check $OUT/$m.diff || { echo "patch does not apply in worktree"; exit 3; }
 git apply $OUT/$m.diff
